@@ -343,6 +343,10 @@ long gd_open_limit(DIRFILE *D, long new_limit)
   if (new_limit == 1)
     new_limit = 2;
 
+  /* the list of open fields is sizeof(pointer) * new_limit bytes */
+  if (new_limit > (long)(GD_SSIZE_T_MAX / sizeof(D->opened[0])))
+    GD_SET_RETURN_ERROR(D, GD_E_ALLOC, 0, NULL, 0, NULL);
+
   if (new_limit >= 0 && new_limit != D->open_limit) { /* New limit */
     if (new_limit == 0) { /* Caller removes limiting */
       free(D->opened);
